@@ -18,7 +18,9 @@
 // ---------------------------------------------------------------------------------------------
 
 use std::mem::ManuallyDrop;
-use crate::schema::self_referential::__verif_schema_helper::{decimal_bytes_node, decimal_fixed_node, fixed_node};
+use crate::schema::self_referential::__verif_schema_helper::{
+	decimal_bytes_node, decimal_fixed_node, fixed_node, ENUM2,
+};
 
 /// Run one Serializer call against `node` with a fresh configuration and a Vec sink.
 fn ser_with(
@@ -30,6 +32,23 @@ fn ser_with(
 	match call(state.serializer_overriding_schema_root(node)) {
 		Ok(()) => Ok(ManuallyDrop::into_inner(state).into_writer()),
 		Err(e) => Err(e),
+	}
+}
+
+/// Frame obligation used by harnesses on composite (enum/record/...) nodes: for those nodes CBMC's
+/// symbolic execution does not constant-fold the node kind, so the recursive union arm of every
+/// `match self.schema_node` stays syntactically reachable and is unwound 12 levels deep (does not
+/// finish).  The arm is replaced by an assertion that it is NOT entered - an obligation the solver
+/// discharges, not an assumption.  (Inherent method so that `impl FnOnce(Self)` matches for Kani.)
+impl<'r, 'c, 's, W: Write> DatumSerializer<'r, 'c, 's, W> {
+	fn verif_unreachable_union_arm<O>(
+		self,
+		_union: &'s Union<'s>,
+		_variant_lookup: UnionVariantLookupKey,
+		_with_serializer: impl FnOnce(Self) -> Result<O, SerError>,
+	) -> Result<O, SerError> {
+		assert!(false, "OBL frame.union_arm_not_entered_for_non_union_node");
+		Err(SerError::new("unreachable"))
 	}
 }
 
@@ -560,6 +579,28 @@ fn c02_int_to_decimal_fixed() {
 	let r = ser_with(&F2S1, |s| s.serialize_i32(w));
 	check_decimal_fixed(&r, w as i128 * 10, 2);
 	std::mem::forget(r);
+}
+
+//@ harness: c02_int_to_enum
+//@   props: C02, C01
+//@   tier: quick
+//@   kind: complete
+//@   fn: ser::serializer::DatumSerializer::serialize_integer (Enum arm)
+//@   domain: every i64 and every u32 presented to a static enum node with 2 symbols (empty name table)
+//@   post: Ok iff 0 <= v < number of symbols, output == spec long(v); otherwise Err (an index no reader can decode is never written)
+#[kani::proof]
+#[kani::unwind(12)]
+#[kani::stub(alloc::fmt::format, stub_format)]
+#[kani::stub(DatumSerializer::serialize_union_unnamed, DatumSerializer::verif_unreachable_union_arm)]
+fn c02_int_to_enum() {
+	let node = &ENUM2;
+	let v: i64 = kani::any();
+	let r = ser_with(node, |s| s.serialize_i64(v));
+	kani::cover!(v == 1, "COV valid index");
+	check_varint_cell(r, if v >= 0 && v < 2 { Some(spec_enc_long(v)) } else { None });
+	let u: u32 = kani::any();
+	let r = ser_with(node, |s| s.serialize_u32(u));
+	check_varint_cell(r, if u < 2 { Some(spec_enc_long(u as i64)) } else { None });
 }
 
 //@ harness: c02_ser_cells_canary
